@@ -62,7 +62,8 @@ func (p *Printer) Program(pr *Prog) string {
 	p.stmts(pr.Stmts, 0)
 	p.vertical(0, "file-end")
 	out := p.sb.String()
-	if p.Vertical && p.ch(2, "no-final-newline") == 1 {
+	if p.Vertical && p.ch(2, "no-final-newline") == 1 && !strings.HasSuffix(out, "\n\n") {
+		// only the newline that ends the last line is optional; after a blank line, dropping a newline would drop the blank line
 		out = strings.TrimSuffix(out, "\n")
 	}
 	return out
